@@ -165,7 +165,8 @@ def binop_ff(a: float, b: float) -> bool:
     return H.done(outcomes_agree(got, exp))
 
 
-CORPUS = [0, -0.0, 1, -1, 2 ** 63 - 1, 2 ** 63 + 1, 10 ** 40, 5e-324, 1.7976931348623157e308, 1.5, -2.5, 3]
+CORPUS = [0, -0.0, 1, -1, 2 ** 63 - 1, 2 ** 63 + 1, 10 ** 40, 5e-324, 1.7976931348623157e308, 1.5, -2.5, 3,
+          0.30000000000000004, 0.3, 1.0000000001, 10 ** 9, 10 ** 9 + 0.5, 2.0 ** 63]
 
 
 CBOX = [(v,) for v in CORPUS]
@@ -210,6 +211,36 @@ HBOX = [(v,) for v in HVALS]
 HTEXTS = ['$a + 2', '2 - $a', '$a * 3', '- $a', '$a < 5', "'ab' * $a", '3 / ($a + 7)']
 
 
+def _app_context():
+    """a host context that overloads the scalar operators its own way (legitimate: overloads live in contexts)"""
+    from yaql.language import specs, yaqltypes
+    ctx = yq.ROOT.create_child_context()
+
+    @specs.parameter('left', yaqltypes.String())
+    @specs.parameter('right', yaqltypes.Number())
+    @specs.name('#operator_+')
+    def str_plus_num(left, right):
+        return left + str(right)
+
+    @specs.parameter('left', yaqltypes.Number())
+    @specs.parameter('right', yaqltypes.Number())
+    @specs.name('#operator_<')
+    def reversed_lt(left, right):
+        return left > right
+
+    @specs.parameter('op', bool)
+    @specs.name('#unary_operator_-')
+    def neg_bool(op):
+        return not op
+    child = ctx.create_child_context()
+    for f in (str_plus_num, reversed_lt, neg_bool):
+        child.register_function(f)
+    return child
+
+
+APP_CTX = _app_context() if not H.P('driver') else None
+
+
 def history_pair(i: int, j: int) -> bool:
     """
     pre: 0 <= i < len(HVALS) and 0 <= j < len(HVALS)
@@ -218,6 +249,8 @@ def history_pair(i: int, j: int) -> bool:
     x, y = HBOX[i][0], HBOX[j][0]
     with H.NoTracing():
         ok = True
+        for text in HTEXTS:          # the same parsed statements were used before by an application with its own overloads
+            yq.outcome(text, ctx=APP_CTX, a=x)
         for v in (x, y, x):
             for text in HTEXTS:
                 ok = ok and outcomes_agree(yq.outcome(text, a=v), ref_text(text, v))
